@@ -11,3 +11,6 @@ import LexVerif.Model.WriteOpts
 import LexVerif.Model.FormatDecimal
 import LexVerif.Model.WriteInt
 import LexVerif.Model.Ops.WriteInt
+import LexVerif.Model.Iter
+import LexVerif.Model.ParseNumber
+import LexVerif.Model.Ops.ParseFloat
